@@ -77,6 +77,8 @@ def f4_harnesses(tier):
                             ('predict', 'h_f4_predict', 'Hydro::predict_primitive_variables: density and pressure stay >= 0 through the half-step prediction for any gradients and time step')):
         H.append(BHarness('F4_' + nm, 'c04_hydro.cpp', ent, defs=['DIR=0', 'NMAXC=2'], strict=True, cflags=['-fopenmp'], timeout=900, stubs={'~_ZSt3maxIdERKT_S2_S2_': _minmax('max'), '~_ZSt3minIdERKT_S2_S2_': _minmax('min')},
             what=what, bound='one cell, every field a symbolic finite double of either sign; gamma in (1,2]; IEEE-UF sign reasoning (overflow to inf/NaN is outside: finite domain)'))
+    H.append(BHarness('F5_gradient_pair', 'c04_hydro.cpp', 'h_f5_gradient_pair', defs=['DIR=1', 'NMAXC=2'], strict=True, cflags=['-fopenmp'], timeout=900, stubs={'~_ZSt3maxIdERKT_S2_S2_': _minmax('max'), '~_ZSt3minIdERKT_S2_S2_': _minmax('min')},
+        what='Hydro::do_gradient_calculation: the face contribution 0.5 (W_L + W_R) / dx is added to the left cell and subtracted from the right cell as the SAME term, only in the gradient component along the face normal; each limiter window is widened by exactly the neighbour primitive (min/max), nothing else is touched', bound='direction y; both cells, limiter windows and 1/dx symbolic'))
     return H
 
 SHAPES_Q = [(1, 1, 1), (2, 2, 2), (3, 2, 1), (1, 2, 3), (2, 3, 1)]
